@@ -95,7 +95,7 @@ def check(ctx):
                 if cls == "Typename":
                     # a type name made from DECLARATION specifiers (an unnamed parameter) can carry a storage class; one made from a specifier-qualifier list cannot
                     from_decl_specs = base.startswith("_parse_declaration_specifiers") or (base.startswith("param:") and any(
-                        v2.startswith("_parse_declaration_specifiers") for m2, i2 in cur.items() for l2, f2 in i2["records"] if l2 == "call:" + meth for v2 in f2.get("p" + base.split("#")[1], [])))
+                        v2.startswith("_parse_declaration_specifiers") for m2, i2 in cur.items() for l2, f2 in i2.get("calls", i2["records"]) if l2 == "call:" + meth for v2 in f2.get("p" + base.split("#")[1], [])))
                     need = {"qual", "storage"} if from_decl_specs else {"qual"}
                 else:
                     need = REQUIRED[cls]
